@@ -910,12 +910,40 @@ func genC18(c *Ctx) {
 	// a source whose failed read is followed by more data (a deadline that expired and was extended, a
 	// temporary network error): whatever the class of the error, its item is the last one
 	for _, f := range formats {
-		for _, class := range []string{"plain", "timeout", "temporary", "wraps-eof"} {
+		for ci, class := range []string{"plain", "timeout", "temporary", "wraps-eof", "timeout", "timeout", "temporary"} {
+			// ONE well-formed text repeated (texts of different shapes one after the other are not well formed in every
+			// format -- BED fixes its field count with the first line -- and a parse error before the fault would end the
+			// iteration before the fault is reached); re-drawn until the fault-free decode has no error item
 			var data []byte
-			for len(data) < 600 {
-				data = append(data, f.wellFormed(c)...)
+			for try := 0; try < 20; try++ {
+				unit := f.wellFormed(c)
+				if len(unit) == 0 {
+					continue
+				}
+				data = nil
+				for len(data) < 600 {
+					data = append(data, unit...)
+				}
+				clean, _ := f.decode(bytes.NewReader(data), 0, len(data)+16)
+				ok := len(clean) >= 3
+				for _, it := range clean {
+					if it == "E" {
+						ok = false
+					}
+				}
+				if ok {
+					break
+				}
 			}
 			cut := len(data)/2 + c.rng.Intn(7)
+			if ci >= 4 { // also exactly at a line boundary, and in the first third
+				if nl := bytes.IndexByte(data[len(data)/3:], '\n'); nl >= 0 {
+					cut = len(data)/3 + nl + 1
+				}
+				if ci == 5 {
+					cut = max(1, cut-3)
+				}
+			}
 			var e error
 			switch class {
 			case "plain":
